@@ -266,3 +266,91 @@ def stereo_domain(ctx):
             raise AnalysisError("non-string stereo mark")
         return vals
     return _cached(ctx, "stereo_domain", build)
+
+
+def check_reader_keeps_groups(ctx, rep, RULE):
+    """The decoder's atom-symbol reader drops nothing that is written: on every successful path, each capture group of the
+    atom pattern that is known to be non-empty on that path feeds (through int(), slicing, sign arithmetic ...) one of the
+    arguments the atom is built from.  (A shortcut taken on a *falsy parsed value* -- isotope 0, "H0" -- instead of on an
+    empty group loses a written field: the decoded SMILES re-encodes to a different symbol.)"""
+    from sa.sym import Ref, Tup, Num, Con
+    f = ctx.fn("selfies.grammar_rules._process_atom_selfies_no_cache")
+    h = IntFacts(ctx)
+    eng = Engine(ctx, h)
+    h.bind(eng)
+    fr = eng.run_function(f, {f.posparams[0]: Unk(("atom-symbol",))})
+
+    def groups_in(x, out, depth=0):
+        """capture-group terms ('group', match term, index) reachable from a value / term, following provenance"""
+        if depth > 12:
+            return
+        if isinstance(x, Num):
+            for t in x.lin.terms():
+                groups_in(t, out, depth + 1)
+            return
+        if isinstance(x, Unk):
+            groups_in(x.term, out, depth + 1)
+            return
+        if isinstance(x, (Con, Ref)) or x is None:
+            return
+        if isinstance(x, str):
+            o = eng.origin.get(x)          # fresh terms (int#k, ...) carry their provenance in the origin registry
+            if o is not None:
+                for y in o[1:]:
+                    groups_in(y, out, depth + 1)
+            return
+        if isinstance(x, tuple):
+            if len(x) >= 3 and x[0] == "group":
+                out.add(x)
+                return
+            o = eng.origin.get(x)
+            if o is not None:
+                for y in o[1:]:
+                    groups_in(y, out, depth + 1)
+            for y in x:
+                if isinstance(y, tuple):
+                    groups_in(y, out, depth + 1)
+            return
+        if hasattr(x, "items") and not isinstance(x, dict):
+            for y in x.items:
+                groups_in(y, out, depth + 1)
+        if hasattr(x, "parts"):
+            for p in x.parts:
+                if p[0] == "sym":
+                    groups_in(p[1], out, depth + 1)
+    n_ok = 0
+    bad = {}
+    for st, v in fr.returns:
+        if not (isinstance(v, Tup) and len(v.items) == 2 and isinstance(v.items[1], Ref) and v.items[1].kind == "partial"):
+            continue
+        tgt, pargs, pkw = v.items[1].target
+        used = set()
+        for a in list(pargs) + list(pkw.values()) + [v.items[0]]:
+            groups_in(a, used)
+        # groups known to be non-empty on this path
+        nonempty = set()
+        for k, val in st.atoms.items():
+            if k[0] == "eq" and val is False and repr(vkey(Con(""))) in k[1]:
+                other = [x for x in k[1] if x != repr(vkey(Con("")))]
+                for t in list(eng.origin) + []:
+                    pass
+                nonempty.add(other[0])
+            elif k[0] == "truthy" and val is True and isinstance(k[1], tuple) and k[1][0] == "unk" and isinstance(k[1][1], tuple) and k[1][1][0] == "group":
+                nonempty.add(repr(k[1]))
+        dropped = [g for g in nonempty if "'group'" in g and not any(repr(("unk", u_)) == g for u_ in used)]
+        if dropped:
+            bad.setdefault(tuple(sorted(dropped)), st)
+        else:
+            n_ok += 1
+    w = None
+    if bad:
+        g0 = next(iter(bad))[0]
+        import re as _re
+        m = _re.search(r", (\d+)\)\)$", g0)
+        w = "on some path capture group %s of the atom pattern is non-empty but none of the atom's fields is computed from it: a written " \
+            "isotope / H count / charge / chirality mark is silently dropped" % (m.group(1) if m else g0[-30:])
+    if not n_ok and not bad:
+        raise AnalysisError("atom-symbol reader has no successful path with a partial atom constructor")
+    rep.ob(RULE, not bad, f.node, f, construct="%d successful paths of the atom-symbol reader" % (n_ok + len(bad)),
+           how="every capture group known non-empty on a path feeds a field of the atom built on that path", witness=w, nontrivial=True,
+           key="reader-keeps-groups")
